@@ -12,6 +12,11 @@
 //                                     pub=…   database::verify() of what was loaded
 //                                     int=…   make_schema_creator_validator(<base schema>)->verify()
 //                                             on the library's own kind of connection
+//                                     wrap=…  what the validator's own query wrappers (master_list, table_info,
+//                                             index_list, index_info of schema_validate_utils.hpp) return for
+//                                             every object of the rebuilt catalog, compared with the independent
+//                                             reader: `same`, or `DIFF:<kind>:<hex name>` for the first difference
+//                                             (the Lean model assumes the wrappers list everything that is there)
 //                                   and the difference between the rebuilt catalog and the remembered
 //                                   one, read by the independent reader of djv_schema.cpp:
 //                                     minus <dump> plus <dump>
@@ -35,6 +40,7 @@
 
 #include "djinterop/engine/engine_library_dir_utils.hpp"
 #include "djinterop/engine/schema/schema.hpp"
+#include "djinterop/engine/schema/schema_validate_utils.hpp"
 
 #include "djv.hpp"
 #include "djv_state.hpp"
@@ -171,6 +177,149 @@ std::string file_of(const std::string& dir, const std::string& label)
     return dir + (label == "music" ? "/m.db" : "/p.db");
 }
 
+// ---- the validator's own view of the catalog vs the independent reader's ----
+namespace sv = djinterop::engine::schema;
+
+std::vector<std::string> toks(const std::string& s)
+{
+    std::vector<std::string> o;
+    std::istringstream in(s);
+    std::string t;
+    while (in >> t) o.push_back(t);
+    return o;
+}
+
+// compare for one database file (label; sqlite schema name `sname` on connection db) ; "" = same
+std::string compare_wrappers(sqlite::database& db, bool v2, const std::string& label, const parts& cat)
+{
+    auto nn = [](const std::string& t) { return t == "none" ? std::string("-") : t; };
+    for (const char* ty : {"table", "view"})
+    {
+        std::set<std::string> mine, theirs;
+        for (auto& m : cat.m)
+        {
+            auto t = toks(m);
+            if (t[0] == label && t[1] == ty) mine.insert(t[2]);
+        }
+        if (v2)
+        {
+            sv::master_list l{db, ty};
+            for (auto& e : l) theirs.insert(hexstr(e.item_name));
+        }
+        else
+        {
+            sv::master_list l{db, label, ty};
+            for (auto& e : l) theirs.insert(hexstr(e.item_name));
+        }
+        for (auto& n : mine)
+            if (!theirs.count(n)) return std::string("DIFF:master-") + ty + "-hidden:" + n;
+        for (auto& n : theirs)
+            if (!mine.count(n)) return std::string("DIFF:master-") + ty + "-invented:" + n;
+    }
+    for (auto& tl : cat.t)
+    {
+        auto t = toks(tl);
+        if (t[0] != label) continue;
+        auto name = parse_hexstr(t[1]);
+        if (name.find('\'') != std::string::npos) continue;  // the wrappers splice the name into the PRAGMA text
+        std::set<std::string> mine, theirs;
+        size_t n = std::stoul(t[2]);
+        for (size_t i = 0; i < n; ++i)
+            mine.insert(t[3 + 5 * i] + " " + t[4 + 5 * i] + " " + t[5 + 5 * i] + " " + nn(t[6 + 5 * i]) + " " + t[7 + 5 * i]);
+        try
+        {
+            auto add = [&](const sv::table_info_entry& e)
+            {
+                theirs.insert(hexstr(e.col_name) + " " + hexstr(e.col_type) + " " + std::to_string(e.nullable) + " " +
+                              hexstr(e.default_value) + " " + std::to_string(e.part_of_pk));
+            };
+            if (v2)
+            {
+                sv::table_info ti{db, name};
+                for (auto& e : ti) add(e);
+            }
+            else
+            {
+                sv::table_info ti{db, label, name};
+                for (auto& e : ti) add(e);
+            }
+        }
+        catch (const std::exception&)
+        {
+            continue;
+        }
+        if (mine != theirs) return "DIFF:table_info:" + t[1];
+    }
+    for (auto& xl : cat.x)
+    {
+        auto t = toks(xl);
+        if (t[0] != label) continue;
+        auto name = parse_hexstr(t[1]);
+        if (name.find('\'') != std::string::npos) continue;
+        std::set<std::string> mine, theirs;
+        std::vector<std::pair<std::string, std::set<std::string>>> idxcols;
+        size_t n = std::stoul(t[2]), k = 3;
+        for (size_t i = 0; i < n; ++i)
+        {
+            mine.insert(t[k] + " " + t[k + 1] + " " + t[k + 2] + " " + t[k + 3]);
+            size_t nc = std::stoul(t[k + 4]);
+            std::set<std::string> cs;
+            for (size_t c = 0; c < nc; ++c) cs.insert(t[k + 5 + 2 * c] + " " + nn(t[k + 6 + 2 * c]));
+            idxcols.push_back({t[k], cs});
+            k += 5 + 2 * nc;
+        }
+        try
+        {
+            auto add = [&](const sv::index_list_entry& e)
+            {
+                theirs.insert(hexstr(e.index_name) + " " + std::to_string(e.unique) + " " + hexstr(e.creation_method) + " " +
+                              std::to_string(e.partial_index));
+            };
+            if (v2)
+            {
+                sv::index_list il{db, name};
+                for (auto& e : il) add(e);
+            }
+            else
+            {
+                sv::index_list il{db, label, name};
+                for (auto& e : il) add(e);
+            }
+        }
+        catch (const std::exception&)
+        {
+            continue;
+        }
+        if (mine != theirs) return "DIFF:index_list:" + t[1];
+        for (auto& ic : idxcols)
+        {
+            auto iname = parse_hexstr(ic.first);
+            if (iname.find('\'') != std::string::npos) continue;
+            std::set<std::string> got;
+            try
+            {
+                auto add = [&](const sv::index_info_entry& e) { got.insert(std::to_string(e.ordinal) + " " + hexstr(e.col_name)); };
+                if (v2)
+                {
+                    sv::index_info ii{db, iname};
+                    for (auto& e : ii) add(e);
+                }
+                else
+                {
+                    sv::index_info ii{db, label, iname};
+                    for (auto& e : ii) add(e);
+                }
+            }
+            catch (const std::exception&)
+            {
+                continue;
+            }
+            if (got != ic.second) return "DIFF:index_info:" + ic.first;
+        }
+    }
+    return "";
+}
+
 template <class F>
 std::string outcome(F f)
 {
@@ -292,8 +441,26 @@ DJV_CMD(sv_mut, "sv.mut")
             auto db = B.v2 ? e::load_database2_sqlite_database(dir) : e::load_legacy_sqlite_database(dir);
             e::schema::make_schema_creator_validator(schema_of(B.schema))->verify(db);
         });
+    std::string wrap = "same";
+    try
+    {
+        auto db = B.v2 ? e::load_database2_sqlite_database(dir) : e::load_legacy_sqlite_database(dir);
+        for (auto& l : B.labels)
+        {
+            auto d = compare_wrappers(db, B.v2, l, cat);
+            if (!d.empty())
+            {
+                wrap = d;
+                break;
+            }
+        }
+    }
+    catch (const std::exception& ex)
+    {
+        wrap = std::string("ERR:") + typeid(ex).name();
+    }
     std::error_code ec;
     fs::remove_all(dir, ec);
-    return "load=" + load + " pub=" + pub + " int=" + in + " trigskip=" + std::to_string(trigskip) + " minus " + render(diff(B.cat, cat)) + " plus " +
+    return "load=" + load + " pub=" + pub + " int=" + in + " trigskip=" + std::to_string(trigskip) + " wrap=" + wrap + " minus " + render(diff(B.cat, cat)) + " plus " +
            render(diff(cat, B.cat));
 }
